@@ -152,7 +152,7 @@ def case(world):
             gm = dev.given_modified()
             if gm:
                 viol.append(V(ID, "bounds-modified", "bound arrays %s were modified" % gm, sub, ctx))
-            if ex.x0_arg.tobytes() != ex.x0.tobytes() or ex.y0_arg.tobytes() != ex.y0.tobytes():
+            if not (np.array_equal(ex.x0_arg, ex.x0) and np.array_equal(ex.y0_arg, ex.y0)):
                 viol.append(V(ID, "start-modified", "x0 or y0 passed to solve() were modified", sub, ctx))
             prm = ex.params
             if prm.scaling is not None:
